@@ -103,6 +103,9 @@ type Options struct {
 	StepHook       func() // called between steps while armed-or-not (no goroutine running)
 	NoUnlockPoints bool
 	RecordTrace    bool
+	// ReverseOthers: among the goroutines other than the running one, the default order is
+	// newest first instead of oldest first (a second base schedule for the bounded search).
+	ReverseOthers bool
 }
 
 // Result of one execution.
@@ -434,9 +437,17 @@ func (s *Sched) dispatch(g *G) {
 			en = append(en, g)
 			curEn = true
 		}
-		for _, h := range s.gs {
-			if h != g && s.enabled(h) {
-				en = append(en, h)
+		if s.opts.ReverseOthers && s.armed {
+			for i := len(s.gs) - 1; i >= 0; i-- {
+				if h := s.gs[i]; h != g && s.enabled(h) {
+					en = append(en, h)
+				}
+			}
+		} else {
+			for _, h := range s.gs {
+				if h != g && s.enabled(h) {
+					en = append(en, h)
+				}
 			}
 		}
 		if len(en) == 0 {
